@@ -76,6 +76,7 @@ const KNOWN_RULES: &[&str] = &[
     "into_method",
     "parse_typed_let",
     "join_fn",
+    "select_poll",
 ];
 
 pub fn apply(repo: &str, req: &ItemReq, f: &mut FnUnderEdit) -> Result<(), String> {
@@ -111,8 +112,13 @@ pub fn apply(repo: &str, req: &ItemReq, f: &mut FnUnderEdit) -> Result<(), Strin
 
     // R8 select!
     if has("select") {
-        let n = mac::rewrite_select(&mut f.block)?;
+        let n = mac::rewrite_select(&mut f.block, false)?;
         f.fire("select", n);
+    }
+    // R8b select! with its polling order kept (readiness of every arm asked from the model)
+    if has("select_poll") {
+        let n = mac::rewrite_select(&mut f.block, true)?;
+        f.fire("select_poll", n);
     }
 
     // R14 spawn inlining
